@@ -107,6 +107,10 @@ def expand(item, seed):
                     for k in (1, 2, 3):
                         yield {"frames": spec, "api": api, "end": "eof", "timeout": T, "cuts": cuts,
                                "gaps": {str(p): k}, "read_caps": [], "seed": 1}
+                if api == "recv_data_ctrl":
+                    for p in range(n + 1):
+                        yield {"frames": spec, "api": api, "end": "eof", "timeout": T, "cuts": cuts, "gaps": {str(p): 2},
+                               "read_caps": [], "seed": 1, "nonblocking": True}
                 for p in range(n + 1):
                     for q in range(p + 1, n + 1):
                         yield {"frames": spec, "api": api, "end": "eof", "timeout": T, "cuts": cuts,
@@ -208,8 +212,11 @@ def gen(rng):
     caps = []
     if rng.random() < 0.4:
         caps = [rng.choice((1, 1, 2, 3, 7, 0)) for _ in range(rng.randrange(1, 12))]
-    return {"frames": spec, "api": api, "end": end, "timeout": T if use_timeout else None, "cuts": cuts,
-            "gaps": gaps, "read_caps": caps, "read_caps_cyclic": rng.random() < 0.5, "seed": rng.randrange(1 << 30)}
+    sc = {"frames": spec, "api": api, "end": end, "timeout": T if use_timeout else None, "cuts": cuts,
+          "gaps": gaps, "read_caps": caps, "read_caps_cyclic": rng.random() < 0.5, "seed": rng.randrange(1 << 30)}
+    if use_timeout and end != "reset" and rng.random() < 0.12:
+        sc["nonblocking"] = True  # zero-timeout socket polled every T: 'would block' takes the place of the timeout
+    return sc
 
 
 _base_cache = {}
@@ -256,7 +263,7 @@ def run(sc, choices=None):
         cfg = {"api": api, "timeout": sc.get("timeout"), "end": sc.get("end", "eof"),
                "cuts": list(sc.get("cuts", ())), "gaps": dict(sc.get("gaps", {})),
                "read_caps": list(sc.get("read_caps", ())), "read_caps_cyclic": sc.get("read_caps_cyclic", False),
-               "max_calls": len(frames) + 8}
+               "max_calls": len(frames) + 8, "nonblocking": bool(sc.get("nonblocking"))}
         n = len(stream)
         for c in cfg["cuts"]:
             if not isinstance(c, int) or c > n:
@@ -267,10 +274,14 @@ def run(sc, choices=None):
     except (KeyError, TypeError, ValueError) as e:
         raise InvalidScenario(str(e))
     _require_legal(frames)
+    if sc.get("nonblocking") and cfg["end"] == "reset":
+        # a polling client may find the reset already delivered when it gets round to writing its reply: whether the
+        # reply still goes out then depends on timing by the nature of TCP, not on segmentation
+        raise InvalidScenario("polling client with a reset at the end")
     if cfg["timeout"] is not None and cfg["timeout"] < 1024:
         raise InvalidScenario("timeout too small")
     seed = int(sc.get("seed", 1))
-    bkey = (stream, api, cfg["timeout"], cfg["end"], seed)
+    bkey = (stream, api, cfg["timeout"], cfg["end"], seed, cfg["nonblocking"])
     base = _base_cache.get(bkey)
     if base is None:
         bcfg = dict(cfg, cuts=[], gaps={}, read_caps=[])
@@ -315,11 +326,13 @@ def run(sc, choices=None):
     res.probes["timeouts_observed"] = a["timeouts"]
     res.nontrivial = bool(cfg["cuts"] or cfg["gaps"] or cfg["read_caps"])
     res.sig = repr((api, cfg["end"], [f.brief() for f in frames], sorted(classes), sorted(gcl),
-                    bool(cfg["read_caps"]), len(cfg["cuts"])))
+                    bool(cfg["read_caps"]), len(cfg["cuts"]), cfg["nonblocking"]))
+    if cfg["nonblocking"]:
+        res.probes["nonblocking_socket"] = 1
     return res
 
 
 def sample_view(sc, r):
     return {"api": sc["api"], "end": sc.get("end"), "frames": [[f["fin"], f["op"], len(f["hex"]) // 2] for f in sc["frames"]],
-            "cuts": sc.get("cuts"), "timeouts_before_offset": sc.get("gaps"), "read_caps": sc.get("read_caps"),
+            "cuts": sc.get("cuts"), "timeouts_before_offset": sc.get("gaps"), "read_caps": sc.get("read_caps"), "nonblocking": sc.get("nonblocking"),
             "timeouts_observed": r.probes.get("timeouts_observed")}
